@@ -127,6 +127,24 @@ def _crs_forms_differ(di, dj):
     return a is not None and b is not None and a[0] == b[0] and a[0] != "none" and a[1] != b[1]
 
 
+def _use(o):
+    """read every view / derived attribute the object offers (properties and a few cheap queries): fills whatever the object caches"""
+    for name in dir(type(o)):
+        if name.startswith("_") or not isinstance(getattr(type(o), name, None), property):
+            continue
+        try:
+            getattr(o, name)
+        except Exception:  # noqa: BLE001 - a view that does not exist for this value (e.g. geographic extent without CRS)
+            pass
+    for fn in (lambda: o.pix2wld(0.5, 0.5), lambda: o.wld2pix(*o.pix2wld(0.5, 0.5)), lambda: o.footprint("epsg:4326"), lambda: repr(o), lambda: str(o),
+               lambda: o[0, 0], lambda: o.tile_geobox((0, 0)), lambda: o.transformer_to_crs("epsg:4326"), lambda: o.json, lambda: o.boundary(4),
+               lambda: o.to_crs("epsg:4326"), lambda: o.svg(), lambda: o.chunk_shape((0, 0)), lambda: o.locate((0, 0)), lambda: o.proj.to_wkt()):
+        try:
+            fn()
+        except Exception:  # noqa: BLE001
+            pass
+
+
 def family_events(case):
     from dask.base import tokenize
 
@@ -139,7 +157,8 @@ def family_events(case):
     descs = case["objs"]
     for i, d in enumerate(descs):
         ev = {"kind": "obj", "fam": case["fam"], "d": d, "outcome": "ok", "refl": True, "pickle": "ok", "pickle_eq": True,
-              "pickle_tok": True, "copy_tok": True, "hash_stable": True}
+              "pickle_tok": True, "copy_tok": True, "hash_stable": True, "used_eq": True, "used_tok": True, "used_hash": True, "used_pickle": "ok",
+              "used_pickle_eq": True, "used_pickle_tok": True}
         try:
             o = build(d, memo)
         except Exception as ex:  # noqa: BLE001
@@ -168,6 +187,22 @@ def family_events(case):
                 ev["copy_tok"] = tokenize(cp) == tok and bool(cp == o)
             except Exception as ex:  # noqa: BLE001
                 ev["pickle"] = ev["pickle"] if ev["pickle"] != "ok" else "copy_" + type(ex).__name__
+            # ---- after use: a second, independently built instance is used, then compared with the untouched one
+            try:
+                u = build(d, {})
+                _use(u)
+                ev["used_eq"] = bool(u == o) and bool(o == u)
+                ev["used_tok"] = tokenize(u) == tok
+                if h is not None:
+                    ev["used_hash"] = hash(u) == h
+                try:
+                    cl2 = pickle.loads(pickle.dumps(u))
+                    ev["used_pickle_eq"] = bool(cl2 == o) and bool(cl2 == u)
+                    ev["used_pickle_tok"] = tokenize(cl2) == tok
+                except Exception as ex:  # noqa: BLE001
+                    ev["used_pickle"] = type(ex).__name__
+            except Exception as ex:  # noqa: BLE001
+                ev["used_pickle"] = "use_" + type(ex).__name__
         except Exception as ex:  # noqa: BLE001
             ev["outcome"] = type(ex).__name__
         events.append(ev)
